@@ -21,6 +21,6 @@ PROP = dict(
                  "a percentage-only CPU quota counts percentage x min(#CPUs, size of own-or-inherited cpu-set)",
                  "requests reach the group tree only through the servicestate call sequences (validated Resources, merged update)"],
     engines=[
-        gt("history", "snap/quota", "TestVerifC36History", dict(checks=6000, shards=2), dict(checks=100000, shards=16)),
+        gt("history", "snap/quota", "TestVerifC36History", dict(checks=10000, shards=4), dict(checks=100000, shards=16)),
     ],
 )
